@@ -48,9 +48,11 @@ def _nonempty(prog, rep):
         bad = unguarded_reads(fn, b, pcs)
         if not bad:
             rep.ok("C04.total", f"{q}:element-reads", fn.where(), "no element of a possibly empty sequence is read")
-        for st, src, why in bad:
-            rep.fail("C04.total", f"{q}:{src}", fn.where(st), f"{src} is read although {why}: when every searched point is dropped (variables of very different scale, "
-                     "an all-negative variable) the constructor ends in an IndexError instead of a contour or a meaningful error")
+        if bad:
+            # one obligation per function (names and the number of such reads change with harmless rewrites of the closing code)
+            st, src, why = bad[0]
+            rep.fail("C04.total", f"{q}:element-reads", fn.where(st), f"{', '.join(s_ for _st, s_, _w in bad)} read although {why}: when every searched point is dropped "
+                     "(variables of very different scale, an all-negative variable) the constructor ends in an IndexError instead of a contour or a meaningful error")
 
 
 def run(prog, rep):
